@@ -205,7 +205,7 @@ var properties = map[string]*propDef{
 		Real:  []string{"core/pkg/distribution: Layer, channel service, framer writer/iterator services (gateway, peer, switches, synchronizers, broadcaster), proxy; core/pkg/distribution/mock + transport/mock in-memory networks; aspen (membership + kv gossip) over its in-memory transport; one in-memory cesium and pebble per node \u2014 all real code, map ranges made deterministic by the overlay"},
 		Stub:  []string{"network: the repository's in-memory transports (no sockets)", "disks: in-memory file systems (no disk faults, no restarts)", "clock: testing/synctest bubble (virtual time for gossip and polling); goroutines of the cluster run freely (no seeded scheduler): scripts are sequential"},
 		Assumptions: []string{"reference: per channel a timestamp->value map of the committed samples (what a single store given the same writes holds; C01 decides the single-store semantics)", "the boolean acknowledgement of iterator commands is not judged (the synchronizer forwards the last responder's acknowledgement, not the merged one; recorded as an observation): the frame is read after every step", "a gateway is used once it has learnt of every channel through metadata gossip (bounded wait in virtual time)"},
-		RequiredProbes: []string{"write_local", "write_remote", "write_mixed", "write_with_free_channel", "write_before_existing_data", "read_remote", "read_mixed", "local_stores_checked", "open_on_missing_channel_refused"},
+		RequiredProbes: []string{"write_local", "write_remote", "write_mixed", "write_with_free_channel", "write_before_existing_data", "read_remote", "read_mixed", "local_stores_checked", "open_on_missing_channel_refused", "open_on_missing_channel_among_existing_ones", "open_on_missing_channel_leased_elsewhere"},
 		Units: []unit{{
 			Name: "core-framer", Module: "core", Package: "./pkg/distribution/framer", Passes: []string{"detrange"}, Engines: []string{"c07"},
 			QuickBudget: 30 * time.Second, QuickWorkers: 8, ThoroughBudget: 12 * time.Minute, ThoroughWorkers: 16,
